@@ -16,6 +16,8 @@ pub fn collect(blocks: &mut Vec<Block>, setup: &mut Report) {
     // (a) all tables with N = 0..3 entries; split by the first entry so that the work spreads over threads
     let b0 = bs.clone();
     blocks.push(Block::new("C14/tables/N<=1".into(), move |rep| tables_small(b0, rep)));
+    let bp = bs.clone();
+    blocks.push(Block::new("C14/tables/poison-rows".into(), move |rep| tables_poison(bp, rep)));
     for first in 0..entry_kinds(&bs).len() {
         let b = bs.clone();
         blocks.push(Block::new(format!("C14/tables/first-entry-{first}"), move |rep| tables_from(b, first, rep)));
@@ -82,7 +84,19 @@ fn judge_table(entries: &[Entry], got: impl Fn(&SynNoRef, SynNoRefUnit) -> Optio
                 rep.inc("states");
                 rep.inc("transitions");
                 let q = SynNoRef::new(a, from);
-                let want = expected(entries, a, from, to);
+                // the oracle evaluates ONLY the matching row; where the amount type's own x*f+o panics (Decimal
+                // overflow of a "poison" row that is asked for) a panic is the expected outcome
+                let want = match guard(|| expected(entries, a, from, to)) {
+                    Ok(w) => w,
+                    Err(_) => {
+                        if guard(|| got(&q, to).map(|r| (r.amount(), r.unit()))).is_err() {
+                            rep.inc("amount_type_panics_mirrored");
+                        } else {
+                            rep.violation("C14/no-panic-where-amount-op-panics", case("syn.SynNoRef", "ConversionTable::convert", json!({"value": show_q(a, b.vname(i)), "to": b.vname(j)})), "a value".into(), "the panic of amount x factor + offset".into());
+                        }
+                        continue;
+                    }
+                };
                 let g = guard(|| got(&q, to).map(|r| (r.amount(), r.unit())));
                 let ok = match (&g, &want) {
                     (Ok(None), None) => {
@@ -126,6 +140,33 @@ fn tables_small(b: Bind<SynNoRef>, rep: &mut Report) {
         judge_table(&[e], |q, to| ConversionTable::<SynNoRef, 1> { mappings: [e] }.convert(q, to), &b, rep);
     }
     rep.sample(json!({"tables": "N=0 and all 27 tables with N=1"}));
+}
+
+/// Tables with a "poison" row - an affine map that overflows the Decimal representation for some amounts of the
+/// alphabet (and is merely huge under f64) - at every position next to one or two ordinary rows: a request that the
+/// poison row does not serve must be answered by its own row (or `None`) as if the poison row were not there.
+fn tables_poison(b: Bind<SynNoRef>, rep: &mut Report) {
+    let kinds = entry_kinds(&b);
+    let u = &b.units;
+    let poison: [Entry; 2] = [
+        (u[0], u[1], amt::parse("1e17"), amt::parse("0.000000000000000001")),
+        (u[2], u[0], amt::parse("-99999999999999999"), amt::parse("0.000000000000000273")),
+    ];
+    for &p in &poison {
+        judge_table(&[p], |q, to| ConversionTable::<SynNoRef, 1> { mappings: [p] }.convert(q, to), &b, rep);
+        for &e in &kinds {
+            judge_table(&[p, e], |q, to| ConversionTable::<SynNoRef, 2> { mappings: [p, e] }.convert(q, to), &b, rep);
+            judge_table(&[e, p], |q, to| ConversionTable::<SynNoRef, 2> { mappings: [e, p] }.convert(q, to), &b, rep);
+            rep.count("poison_tables", 2);
+            for &e2 in kinds.iter().step_by(if thorough() { 1 } else { 4 }) {
+                judge_table(&[p, e, e2], |q, to| ConversionTable::<SynNoRef, 3> { mappings: [p, e, e2] }.convert(q, to), &b, rep);
+                judge_table(&[e, p, e2], |q, to| ConversionTable::<SynNoRef, 3> { mappings: [e, p, e2] }.convert(q, to), &b, rep);
+                judge_table(&[e, e2, p], |q, to| ConversionTable::<SynNoRef, 3> { mappings: [e, e2, p] }.convert(q, to), &b, rep);
+                rep.count("poison_tables", 3);
+            }
+        }
+    }
+    rep.sample(json!({"poison rows": poison.iter().map(|e| format!("{:?}->{:?}: x*{}+{}", e.0, e.1, amt::show(e.2), amt::show(e.3))).collect::<Vec<_>>()}));
 }
 
 fn tables_from(b: Bind<SynNoRef>, first: usize, rep: &mut Report) {
